@@ -4,6 +4,11 @@ import json, os, subprocess
 HERE = os.path.dirname(os.path.dirname(os.path.abspath(__file__)))
 
 CLAIMED = {
+ "C06": dict(
+   technique="differential property testing of two implementations (static analyzer vs interpreter) over generated well-typed, ill-typed and text-damaged lines and programs, with forced start lines and variable environments",
+   text="Direction 1: every generated program the analyzer accepts is executed by RUN and from each of its lines under three variable environments and mixed replies; no execution may end in a syntax error, TYPE MISMATCH or UNDEF'D STATEMENT. Direction 2: every analyzer-rejected line without conditionals, control transfers, INPUT or user functions is run alone and must fail. Two confirmed disagreements that have no small repair are recorded as known findings under narrow keys.",
+   note="Branch coverage is by start line x environment, not exhaustive over conditions; the straight-line test is decided conservatively on the text.",
+   design="4/C06"),
  "C07": dict(
    technique="metamorphic property testing over break schedules: generated programs x exhaustive/random subsets of turn boundaries x generated inspection statements, interrupted run compared with the uninterrupted run of the same implementation",
    text="For generated programs with INPUT/STOP and reply scripts, the run interrupted by host breaks at a chosen subset of turn boundaries (all subsets for runs of <= 7 calls), with side-effect-free inspection statements executed at each breakpoint (including failing ones and failing user-function calls) and resumed with CONT, must produce the same prints, notices, consumed replies and final outcome as the uninterrupted run. A second family checks that an assignment entered at a STOP equals the same assignment written in place of the STOP.",
